@@ -39,6 +39,7 @@ def facets(c):
         f["axis_sign"] = "neg" if all(neg) else ("pos" if not any(neg) else "mixed")
     else:
         f["axis_sign"] = "none"
+    f["axis_order"] = ("asc" if list(ax["t"]) == sorted(ax["t"]) else "desc") if ax["k"] == "tuple" and len(ax["t"]) > 1 else "na"
     f["same_shape"] = c["s"] == c["s2"]
     f["s"] = list(c["s"])
     f["maxnd"] = max(len(c["s"]), len(c["s2"]))
@@ -55,7 +56,7 @@ def stratified(cfgs, n, rng):
     strata = {}
     for c in cfgs:
         f = facets(c)
-        key = (f["prim"], f["form"], f["argnum"], f["kind"], f["axis_kind"], f["axis_sign"], f["nd"], f["nd2"], f["kd"], f["ia"], f["st"], f["square"],
+        key = (f["prim"], f["form"], f["argnum"], f["kind"], f["axis_kind"], f["axis_sign"], f["axis_order"], f["nd"], f["nd2"], f["kd"], f["ia"], f["st"], f["square"],
                tuple(sorted(str(i.get("t")) for i in c["tp"])) if c["tp"] and isinstance(c["tp"][0], dict) else f["tp_len"])
         strata.setdefault(key, []).append(c)
     keys = sorted(strata, key=str)
@@ -168,7 +169,7 @@ def mirror(prop, r):
 
 FAMILIES = {
     # family: (MaxRank quick, MaxRank thorough, kinds)
-    "realinto": (2, 2, ["rc"]), "special": (2, 2, ["rr"]), "extend": (2, 2, ["rr"]), "helper": (3, 3, ["rr"]), "argsweep": (2, 2, ["rr"]), "index": (2, 3, ["rr"]), "kink": (2, 2, ["rr"]), "linalg": (3, 3, ["rr"]), "fft": (3, 3, ["rr"]), "join": (3, 3, ["rr"]), "contract": (3, 3, ["rr"]), "rearr": (3, 3, ["rr"]), "binary": (3, 4, ["rr"]), "where": (2, 2, ["rr"]), "reduce": (3, 4, ["rr"]), "cum": (3, 3, ["rr"]), "unary": (2, 2, ["rr"]),
+    "mixorder": (2, 2, ["rr"]), "realinto": (2, 2, ["rc"]), "special": (2, 2, ["rr"]), "extend": (2, 2, ["rr"]), "helper": (3, 3, ["rr"]), "argsweep": (2, 2, ["rr"]), "index": (2, 3, ["rr"]), "kink": (2, 2, ["rr"]), "linalg": (3, 3, ["rr"]), "fft": (3, 3, ["rr"]), "join": (3, 3, ["rr"]), "contract": (3, 3, ["rr"]), "rearr": (3, 3, ["rr"]), "binary": (3, 4, ["rr"]), "where": (2, 2, ["rr"]), "reduce": (3, 4, ["rr"]), "cum": (3, 3, ["rr"]), "unary": (2, 2, ["rr"]),
 }
 COMPLEX_FAMILIES = {"realinto": (2, 2, ["rc"]), "linalg": (2, 3, ["cc"]), "fft": (3, 3, ["rr", "cc"]), "contract": (2, 3, ["cc", "cr", "rc"]), "binary": (2, 3, ["cc", "cr", "rc"]), "reduce": (2, 3, ["cc"]), "unary": (2, 2, ["cc"])}
 
@@ -373,7 +374,7 @@ def c07_second(tier, seed):
     return run_rules("C07", tier, seed, SECOND_FAMILIES, 120, RULE, ASSUME, write=False)
 
 
-INDEX_FAMILY = {"index": (2, 3, ["rr"])}
+INDEX_FAMILY = {"index": (2, 3, ["rr"]), "mixorder": (2, 2, ["rr"])}
 
 
 def c11_index(tier, seed):
